@@ -19,6 +19,7 @@ import Earverif.Model.Chna
 import Earverif.Gen.C08_Handlers
 import Earverif.Proofs.C08Leaf
 import Earverif.Proofs.C08Custom
+import Earverif.Proofs.C08Blocks
 
 namespace Earverif.C08
 open Earverif.Digits Earverif.TimeFormat Earverif.GenIds
@@ -582,52 +583,51 @@ generated ID (`ids_disjoint_from_common`, `above_common_ne`) -/
 theorem common_ids_in_reserved_range : ∀ e ∈ commonIdRanges, e.2.2.2 ≤ 0x0FFF := by decide +kernel
 
 /-- **The combinator round trip instantiated with the regenerated handler tables.**  For every extracted
-`ElementParser` (both versions) — with the hand-written handlers supplied as arbitrary parameters `impl`
-that satisfy the frame condition in `FieldOK` — parsing what `to_xml` wrote gives back every declarative
-argument (and the constructor default for every other argument in `S`).  The key-distinctness hypotheses of
-`codec_roundtrip` are discharged by `handlers_wellformed`, i.e. by the tables as the code declares them now. -/
+`ElementParser` (both versions) — with the hand-written handlers supplied as parameters `impl` that satisfy
+their specification in `FieldOK` (own output routed to themselves, `RunOK`) and whose declared arguments are
+disjoint from everybody else's — parsing what `to_xml` wrote gives back every declarative argument, the
+specified value under every argument of a hand-written handler, and the constructor default elsewhere.  The
+key-distinctness hypotheses of `codec_roundtrip` are discharged by `handlers_wellformed`, i.e. by the tables as
+the code declares them now. -/
 theorem handlers_codec_roundtrip :
-    ∀ t ∈ parsers, ∀ (impl : Row → CustomImpl Leaf) (S : String → Prop) (name : String) (o cd : Obj Leaf),
-      (∀ a ∈ declArgs (ofRows impl t.2), S a) →
-      (∀ p ∈ ofRows impl t.2, FieldOK (ofRows impl t.2) S o cd p) →
-      (∀ kw, parseStages (ofRows impl t.2) (toXml (ofRows impl t.2) name o) = some kw →
-        ∀ p ∈ ofRows impl t.2, p.isCustom = true → ∀ a, p.requiredArg? = some a → (kw a).isSome) →
+    ∀ t ∈ parsers, ∀ (impl : Row → CustomImpl Leaf) (name : String) (o cd : Obj Leaf),
+      (allArgs (ofRows impl t.2)).Nodup →
+      (∀ p ∈ ofRows impl t.2, FieldOK (ofRows impl t.2) (toXml (ofRows impl t.2) name o) o cd p) →
       ∃ o', parse (ofRows impl t.2) cd (toXml (ofRows impl t.2) name o) = some o' ∧
-        (∀ a ∈ declArgs (ofRows impl t.2), o' a = o a) ∧
-        (∀ a, S a → a ∉ declArgs (ofRows impl t.2) → o' a = cd a) := by
-  intro t ht impl S name o cd hS hF hreq
+        (∀ p ∈ ofRows impl t.2, p.isCustom = false → ∀ a ∈ p.ownArgs, o' a = o a) ∧
+        (∀ p ∈ ofRows impl t.2, p.isCustom = true → ∀ a ∈ p.ownArgs, o' a = (p.customEff o a).getD (cd a)) ∧
+        (∀ a, a ∉ allArgs (ofRows impl t.2) → o' a = cd a) := by
+  intro t ht impl name o cd hargs hF
   have hok := handlers_wellformed t ht
   simp only [parserOK, Bool.and_eq_true] at hok
-  exact codec_roundtrip _ S name o cd ⟨keysOK_ofRows impl t.2 hok.1.1.1, hS, hF⟩ hreq
+  exact codec_roundtrip _ name o cd ⟨keysOK_ofRows impl t.2 hok.1.1.1 hargs, hF⟩
 
 /-- **… with the field hypotheses reduced to statements about values.**  For every extracted parser: if each
-declarative argument of the object holds a value in the domain of its codec (`RowValueOK`: the codec named in
-the table round-trips on it, required values are not `None`, enum members belong to the row's enum), `cd` is the
-constructor-default map recorded in the table (`CdOK`) and the hand-written handlers satisfy the frame
-condition, then parsing what `to_xml` wrote gives the declarative arguments back.  Key distinctness, symmetric
-default elision (`handler default = constructor default`), injective enum tables and "parse-only is never
-required" are discharged by `handlers_wellformed`, i.e. re-checked against the code's tables on every run. -/
+declarative argument of the object holds a value in the domain of its codec (`RowValueOK`), `cd` is the
+constructor-default map recorded in the table (`CdOK`) and the hand-written handlers meet their specification,
+the conclusion of `handlers_codec_roundtrip` holds.  Key distinctness, symmetric default elision
+(`handler default = constructor default`), injective enum tables and "parse-only is never required" are
+discharged by `handlers_wellformed`, i.e. re-checked against the code's tables on every run. -/
 theorem handlers_roundtrip_values :
-    ∀ t ∈ parsers, ∀ (impl : Row → CustomImpl Leaf) (S : String → Prop) (name : String) (o cd : Obj Leaf),
-      (∀ a ∈ declArgs (ofRows impl t.2), S a) →
+    ∀ t ∈ parsers, ∀ (impl : Row → CustomImpl Leaf) (name : String) (o cd : Obj Leaf),
+      (allArgs (ofRows impl t.2)).Nodup →
       (∀ r ∈ t.2, RowValueOK o r) → (∀ r ∈ t.2, CdOK cd r) →
-      (∀ r ∈ t.2, (r.kind = "CustomElement" → FrameOK (ofRows impl t.2) S o (some r.admName) (impl r)) ∧
-        (r.kind ≠ "Attribute" → r.kind ≠ "AttrElement" → r.kind ≠ "ListElement" → r.kind ≠ "HandleText" →
-          r.kind ≠ "TypeAttribute" → r.kind ≠ "CustomElement" → FrameOK (ofRows impl t.2) S o none (impl r))) →
-      (∀ kw, parseStages (ofRows impl t.2) (toXml (ofRows impl t.2) name o) = some kw →
-        ∀ p ∈ ofRows impl t.2, p.isCustom = true → ∀ a, p.requiredArg? = some a → (kw a).isSome) →
+      (∀ r ∈ t.2, r.kind ≠ "Attribute" → r.kind ≠ "AttrElement" → r.kind ≠ "ListElement" → r.kind ≠ "HandleText" →
+        r.kind ≠ "TypeAttribute" →
+        FieldOK (ofRows impl t.2) (toXml (ofRows impl t.2) name o) o cd (ofRow impl r)) →
       ∃ o', parse (ofRows impl t.2) cd (toXml (ofRows impl t.2) name o) = some o' ∧
-        (∀ a ∈ declArgs (ofRows impl t.2), o' a = o a) ∧
-        (∀ a, S a → a ∉ declArgs (ofRows impl t.2) → o' a = cd a) := by
-  intro t ht impl S name o cd hS hv hcd hfr hreq
+        (∀ p ∈ ofRows impl t.2, p.isCustom = false → ∀ a ∈ p.ownArgs, o' a = o a) ∧
+        (∀ p ∈ ofRows impl t.2, p.isCustom = true → ∀ a ∈ p.ownArgs, o' a = (p.customEff o a).getD (cd a)) ∧
+        (∀ a, a ∉ allArgs (ofRows impl t.2) → o' a = cd a) := by
+  intro t ht impl name o cd hargs hv hcd hfr
   have hok := handlers_wellformed t ht
   simp only [parserOK, Bool.and_eq_true, defaultsOK, enumsOK, parseOnlyOK, List.all_eq_true] at hok
   obtain ⟨⟨⟨_, hd⟩, he⟩, hp⟩ := hok
-  refine handlers_codec_roundtrip t ht impl S name o cd hS ?_ hreq
+  refine handlers_codec_roundtrip t ht impl name o cd hargs ?_
   intro p hp'
   unfold ofRows at hp'
   obtain ⟨r, hr, rfl⟩ := List.mem_map.mp hp'
-  exact fieldOK_ofRow impl _ S o cd r (hd r hr) (he r hr) (hp r hr) (hv r hr) (hcd r hr) (hfr r hr)
+  exact fieldOK_ofRow impl _ _ o cd r (hd r hr) (he r hr) (hp r hr) (hv r hr) (hcd r hr) (hfr r hr)
 
 /-- non-vacuity of the value hypotheses: an `integratedLoudness` of -23.0 (a `FloatType` `AttrElement`, optional,
 default `None`), and the matching constructor default -/
@@ -652,21 +652,46 @@ and a second generation reproduces the same tree -/
 theorem handlers_codec_roundtrip_pure :
     ∀ t ∈ parsers, t.2.all rowDeclarative = true →
       ∀ (impl : Row → CustomImpl Leaf) (name : String) (o cd : Obj Leaf),
-      (∀ p ∈ ofRows impl t.2, FieldOK (ofRows impl t.2) (fun _ => True) o cd p) →
-      (∀ a, a ∉ declArgs (ofRows impl t.2) → o a = cd a) →
+      (∀ p ∈ ofRows impl t.2, FieldOK (ofRows impl t.2) (toXml (ofRows impl t.2) name o) o cd p) →
+      (∀ a, a ∉ allArgs (ofRows impl t.2) → o a = cd a) →
       parse (ofRows impl t.2) cd (toXml (ofRows impl t.2) name o) = some o ∧
       (parse (ofRows impl t.2) cd (toXml (ofRows impl t.2) name o)).map (toXml (ofRows impl t.2) name)
         = some (toXml (ofRows impl t.2) name o) := by
   intro t ht hpure impl name o cd hF hrest
   have hok := handlers_wellformed t ht
   simp only [parserOK, Bool.and_eq_true] at hok
-  refine codec_roundtrip_pure _ name o cd ⟨keysOK_ofRows impl t.2 hok.1.1.1, fun _ _ => trivial, hF⟩ ?_ hrest
+  have hdecl : ∀ r ∈ t.2, (ofRow impl r).ownArgs = (rowDeclArg? r).toList := by
+    intro r hr
+    have := (List.all_eq_true.mp hpure) r hr
+    simp only [rowDeclarative, Bool.or_eq_true, beq_iff_eq] at this
+    unfold ofRow ofRowG rowDeclArg?
+    split_ifs <;> simp_all [Property.ownArgs]
+  have hargs : (allArgs (ofRows impl t.2)).Nodup := by
+    have h3 : (t.2.filterMap rowDeclArg?).Nodup := by
+      have := hok.1.1.1
+      simp only [rowsKeysOK, Bool.and_eq_true, decide_eq_true_eq] at this
+      exact this.1.2
+    have : allArgs (ofRows impl t.2) = t.2.filterMap rowDeclArg? := by
+      unfold allArgs ofRows
+      rw [flatMap_map']
+      have hgen : ∀ l : List Row, (∀ r ∈ l, (ofRow impl r).ownArgs = (rowDeclArg? r).toList) →
+          l.flatMap (fun r => (ofRow impl r).ownArgs) = l.filterMap rowDeclArg? := by
+        intro l
+        induction l with
+        | nil => intro _; rfl
+        | cons r rs ih =>
+          intro h
+          rw [List.flatMap_cons, List.filterMap_cons, h r (by simp), ih (fun x hx => h x (by simp [hx]))]
+          cases rowDeclArg? r <;> rfl
+      exact hgen t.2 hdecl
+    rw [this]; exact h3
+  refine codec_roundtrip_pure _ name o cd ⟨keysOK_ofRows impl t.2 hok.1.1.1 hargs, hF⟩ ?_ hrest
   intro p hp
   unfold ofRows at hp
   obtain ⟨r, hr, rfl⟩ := List.mem_map.mp hp
   have := (List.all_eq_true.mp hpure) r hr
   simp only [rowDeclarative, Bool.or_eq_true, beq_iff_eq] at this
-  unfold ofRow
+  unfold ofRow ofRowG
   split_ifs <;> simp_all [Property.isCustom]
 
 /-- the purely declarative parsers in the current tables (non-vacuity of `handlers_codec_roundtrip_pure`):
@@ -691,9 +716,11 @@ end Tables
 
 /-! ## Summary -/
 
-/-- **C08, partial.**  The conjunction of the leaf and ID claims above.  Missing for the full property:
-the XML element layer (declarative combinators and hand-written handlers), five-decimal float printing
-and lxml are not modelled; they are covered only by the generated-document search of the harness. -/
+/-- **C08, partial.**  The conjunction of the leaf and ID claims above and the class-level round trip of the
+Objects block format.  Missing for the full property: the class-level theorems for the other element classes
+(their declarative parts are covered by `handlers_codec_roundtrip`, their hand-written handlers are parameters
+or — DirectSpeakers position, frequency — proved separately), five-decimal printing of arbitrary doubles, lxml
+and reference resolution; those are covered only by the generated-document search of the harness. -/
 theorem C08_partial :
     (∀ (q : ℚ), 0 ≤ q → q < 360000 → ExactDecimal q → ∀ af, ∃ s, unparseTime af (.dec q) = .ok s ∧
         parseTime s = some (.dec q) ∧ parseTimeV1 s = some (.dec q)) ∧
@@ -701,10 +728,17 @@ theorem C08_partial :
         parseTime (unparseFractional n d) = some (.frac n d)) ∧
     (∀ (x : Input) (o : Output), generateIds x = some o → TypesOK x →
         o.objects.Nodup ∧ o.trackUIDs.Nodup ∧ silentUID ∉ o.trackUIDs) ∧
-    (∀ e : Chna.Entry, WFEntry e → ∃ bs, Chna.encode e = some bs ∧ bs.length = 40 ∧ Chna.decode bs = some e) :=
+    (∀ e : Chna.Entry, WFEntry e → ∃ bs, Chna.encode e = some bs ∧ bs.length = 40 ∧ Chna.decode bs = some e) ∧
+    -- the XML layer, class level: audioBlockFormat / Objects, both versions, every handler concrete
+    (∀ (v2 : Bool) (name : String) (b : Earverif.XmlBlocks.ObjectsBlock), Earverif.XmlBlocks.Valid v2 b →
+        Earverif.XmlCodec.parse (Earverif.XmlBlocks.objectsProps (Earverif.XmlBlocks.objectsRows v2))
+          Earverif.XmlBlocks.objectsDefaults
+          (Earverif.XmlCodec.toXml (Earverif.XmlBlocks.objectsProps (Earverif.XmlBlocks.objectsRows v2)) name b.toObj)
+          = some b.toObj) :=
   ⟨time_roundtrip_decimal, time_roundtrip_fractional,
     fun x o h ht => ⟨(ids_injective x o h ht).2.2.1, (ids_injective x o h ht).2.2.2.2.2.2.2.2.2,
       ids_not_reserved x o h⟩,
-    chna_entry_roundtrip⟩
+    chna_entry_roundtrip,
+    fun v2 name b hv => (Earverif.XmlBlocks.objectsBlock_roundtrip v2 name b hv).1⟩
 
 end Earverif.C08
